@@ -550,6 +550,9 @@ def h_memset(it, st, args, node):
                     st.mem[k] = Int(0)
                 else:
                     del st.mem[k]
+            if pre and (dst.loc, pre + '#') in st.mem:
+                # the abstract content of a character buffer follows the fill
+                st.mem[(dst.loc, pre + '#')] = 'empty' if (isinstance(val, Int) and val.v == 0) else 'unknown'
             if isinstance(val, Int) and val.v == 0 and pre:
                 st.mem[(dst.loc, pre + '[0]')] = Int(0)
         st.trace.append(('memset', dst, val, node_loc(node)))
